@@ -854,6 +854,9 @@ func Run(c *gen.Ctx) error {
 		}(i)
 	}
 	wg.Wait()
+	for k := 0; k < 3; k++ {
+		pingFlood(meta)
+	}
 	leaked := leakedGoroutines()
 	if len(leaked) > 0 {
 		meta.Direct = append(meta.Direct, gen.DirectFinding{Signature: "websocket-goroutines-left-after-close", What: fmt.Sprintf("%d goroutine(s) of the websocket transport still alive after every session was closed: %v", len(leaked), leaked), Replay: leaked})
